@@ -311,6 +311,31 @@ def run(chk):
             chk.violation(f'schedule-{kind}', f'bin_{kind} n={n} with {T} worker threads: {r["problem"]}', dict(n=n, T=T, kind=kind))
     chk.part('schedule_replay', schedules=nsch)
     chk.add_cases(nsch)
+    # ---- extended coverage (spec/Interp.tla): linear_interp values and expand_poles_to_3d as the inverse of the binning
+    try:
+        from abacusnbody.analysis.power_spectrum import linear_interp, expand_poles_to_3d
+        run_tlc(chk, 'MC_Interp', module_text="---- MODULE MC_Interp ----\nEXTENDS Interp\nVARIABLE v\nASSUME AEqualsD(5, 4) /\\ LinearExact(6, 4)\nInit == v = 0\nNext == v' = v\n====\n",
+                cfg_text='INIT Init\nNEXT Next\n', timeout=300)
+        probs = []
+        for rep in range(200):
+            nk = int(rng.integers(2, 30))
+            x = (rng.uniform(0, 1) + rng.uniform(0.01, 1) * np.arange(nk)).astype(np.float64)
+            y = rng.normal(size=nk)
+            for xd in np.concatenate([rng.uniform(x[0] - 1, x[-1] + 1, 20), x]):
+                if abs(linear_interp(float(xd), x, y) - np.interp(xd, x, y)) > 1e-9 * (1 + np.abs(y).max()):
+                    probs.append(f'linear_interp({xd}) != numpy.interp on {nk} knots')
+                    break
+        # expand_poles_to_3d with P_0(k) = k and no higher poles must put |k| on every cell (folding of the negative frequencies)
+        for n in (4, 5, 6, 7):
+            kk = np.linspace(0.0, 2.0 * n, 8 * n + 1)
+            Pk = expand_poles_to_3d(kk, kk[None, :].copy(), n, L, np.array([0]), dtype=np.float64)
+            want = np.sqrt(np.array([[[sgn(i, n) ** 2 + sgn(j, n) ** 2 + k * k for k in range(n // 2 + 1)] for j in range(n)] for i in range(n)], dtype=np.float64))
+            if not np.allclose(Pk, want, rtol=1e-6, atol=1e-6):
+                i0 = np.argwhere(~np.isclose(Pk, want, rtol=1e-6, atol=1e-6))[0]
+                probs.append(f'expand_poles_to_3d n={n}: cell {tuple(int(v) for v in i0)} holds P(|k|={Pk[tuple(i0)]:.4f}) but its wavenumber is {want[tuple(i0)]:.4f} (observation: odd meshes fold index n//2 to a negative frequency, as the binning loops did before their repair)')
+        chk.extended('linear_interp / expand_poles_to_3d', not probs, '; '.join(probs[:2]))
+    except Exception as e:  # noqa
+        chk.extended('linear_interp / expand_poles_to_3d', False, f'{type(e).__name__}: {e}')
     if bad_model:
         chk.note(f'model-drift C08: layer A ("fixed" variant) disagrees with layer D on instances {[insts[i] for i in bad_model[:3]]} (real code judged per mode above)')
     chk.add_cases(nprobe + nw, nontrivial=nontriv, traces=nprobe + nw)
